@@ -229,17 +229,20 @@ def matrix_units(U):
 typedef int vertex_t; typedef float value_t;
 float g_mat_ij; float threshold; size_t num_edges;
 int g_kept, g_kept_j; float g_kept_d;
-#define NEIGHBORS_EMPLACE(i, j, d) do { g_kept++; g_kept_j = (j); g_kept_d = (d); } while (0)
+int g_kept_i; int g_mat_i = -1, g_mat_j = -1;
+#define NEIGHBORS_EMPLACE(i, j, d) do { g_kept++; g_kept_i = (i); g_kept_j = (j); g_kept_d = (d); } while (0)
+#define VP_MAT(i, j) (g_mat_i = (i), g_mat_j = (j), g_mat_ij)
 """
     fn = Fn(RP, r"Sparse_distance_matrix\(const DistanceMatrix& mat, const value_t threshold\)\s*: neighbors", "sparse_keep_entry", """
 __CPROVER_requires(g_kept == 0 && !isnan(g_mat_ij) && !isnan(threshold) && num_edges < 1000000)
 __CPROVER_ensures((g_kept == 1) == (i != j && g_mat_ij <= threshold))
 __CPROVER_ensures(g_kept == 0 || g_kept == 1)
-__CPROVER_ensures(g_kept == 0 || (g_kept_j == j && g_kept_d == g_mat_ij && num_edges == __CPROVER_old(num_edges) + 1))
-__CPROVER_assigns(g_kept, g_kept_j, g_kept_d, num_edges)
-""", piece={"kind": "slice", "first": r"if \(i != j\) \{", "last": r"neighbors\[i\]\.emplace_back\(j, d\);\s*\}\s*\}",
+__CPROVER_ensures(g_kept == 0 || (g_kept_i == i && g_kept_j == j && g_kept_d == g_mat_ij && num_edges == __CPROVER_old(num_edges) + 1))
+__CPROVER_ensures(i == j || ((g_mat_i == i && g_mat_j == j) || (g_mat_i == j && g_mat_j == i)))
+__CPROVER_assigns(g_kept, g_kept_i, g_kept_j, g_kept_d, g_mat_i, g_mat_j, num_edges)
+""", piece={"kind": "slice", "first": r"if \(i != j\) \{", "last": r"emplace_back\([^;]*\);\s*\}\s*\}",
             "sig": "void sparse_keep_entry(vertex_t i, vertex_t j)"},
-            subs=[(r"auto d = mat\(i, j\);", "value_t d = g_mat_ij;"), (r"neighbors\[i\]\.emplace_back\(j, d\);", "NEIGHBORS_EMPLACE(i, j, d);")],
+            subs=[(r"auto d = mat\(([^;]*)\);", r"value_t d = VP_MAT(\1);"), (r"neighbors\[(\w+)\]\.emplace_back\(([^;]*)\);", r"NEIGHBORS_EMPLACE(\1, \2);")],
             canary=(r"d <= threshold", "d < threshold"))
     U.append(Unit("sparse_matrix.keep_entry", "C11", [fn], enforce="sparse_keep_entry", globals_="#include <math.h>\n" + G, inputs=["in_i", "in_j", "g_mat_ij", "threshold"],
                   replay=mk_replay_sparse(),
